@@ -48,10 +48,14 @@ Gamut(name) ==
     CASE name = "t_add"     -> << <<"e", 1>>, <<"c", 1>> >>
       [] name = "t_dbl"     -> << <<"e", 1>> >>
       [] name = "t_oneway"  -> << <<"e", 1>> >>
+      [] name = "t_oneway2" -> << <<"e", 1>> >>     \* one-way as well; its own gamut does not list the inv flag
       [] name = "t_failodd" -> << >>
       [] name = "t_drift"   -> << <<"rate", 1>>, <<"t0", 0>> >>
       [] name = "noop"      -> << >>
-Invertible(name) == name # "t_oneway"
+\* `inv` is a modifier of the step, valid for every operator (Rumination 009): whether the operator's
+\* own gamut happens to list it or not, inv on an operator without an inverse is refused
+OneWay == {"t_oneway", "t_oneway2"}
+Invertible(name) == name \notin OneWay
 
 Ok(v)  == [ok |-> TRUE, v |-> v]
 Fail(w) == [ok |-> FALSE, why |-> w]
@@ -146,7 +150,7 @@ Leaf(op, d, data) ==
       [] op.name = "t_dbl" ->
            [data |-> SetCol(data, op.p["e"], [k \in 1..n |->
                         IF d = "F" THEN Dbl(data[k][op.p["e"]]) ELSE Half(data[k][op.p["e"]])]), cnt |-> n]
-      [] op.name = "t_oneway" ->
+      [] op.name \in OneWay ->
            IF d = "F" THEN [data |-> SetCol(data, op.p["e"], [k \in 1..n |-> Add(data[k][op.p["e"]], Unit)]), cnt |-> n]
            ELSE [data |-> data, cnt |-> 0]        \* unsupported inverse: zero, data untouched
       \* time dependent: element 1 moves by rate * (t - t0), t being the tuple's own epoch
@@ -197,7 +201,7 @@ RECURSIVE HasOmit(_)
 HasOmit(op) == IF op.kind = "leaf" THEN FALSE
                ELSE \E i \in 1..Len(op.steps) : op.steps[i].of \/ op.steps[i].oi \/ HasOmit(op.steps[i])
 RECURSIVE HasOneway(_)
-HasOneway(op) == IF op.kind = "leaf" THEN op.name \in {"t_oneway"}
+HasOneway(op) == IF op.kind = "leaf" THEN op.name \in OneWay
                  ELSE \E i \in 1..Len(op.steps) : HasOneway(op.steps[i])
 RECURSIVE HasFail(_)
 HasFail(op) == IF op.kind = "leaf" THEN op.name \in {"t_failodd"}
@@ -247,6 +251,7 @@ Sp(a, b) == IF a = "" THEN b ELSE IF b = "" THEN a ELSE a \o " " \o b
 \*  "suffix":  name args inv omit_fwd          "prefix":  inv omit_fwd name args
 \*  "eqtrue":  name inv=true args omit_fwd=true
 \*  "mid":     name inv args omit_fwd (modifiers between name and arguments)
+\*  "twice":   inv omit_fwd name args inv=true (a flag given twice is that flag, not a double inversion)
 \* The `<` / `>` sugar belongs to the separator and is rendered by DefText.
 StepText(s, style) ==
     LET nm == s.name
@@ -259,6 +264,7 @@ StepText(s, style) ==
          [] style = "prefix" -> Sp(Sp(iv, om), Sp(nm, ar))
          [] style = "eqtrue" -> Sp(Sp(nm, ive), Sp(ar, ome))
          [] style = "mid"    -> Sp(Sp(nm, Sp(iv, om)), ar)
+         [] style = "twice"  -> Sp(Sp(Sp(iv, om), Sp(nm, ar)), ive)
          [] style = "sugar"  -> Sp(Sp(nm, ar), iv)   \* omission rendered in the separator
 
 \* a step that can use the sugar: exactly one omission
@@ -281,7 +287,27 @@ DefText(def, style) ==
     LET t == DefTextFrom(def, 1, style)
     IN IF OneStepPipeline(def) /\ ~(style = "sugar" /\ Sugarable(def[1])) THEN t \o " |" ELSE t
 
-ResourceTexts == TLCEval([n \in DOMAIN ResC |-> DefText(ResC[n], "suffix")])
+\* "Everything is a pipeline, even if there is only a single step in that pipeline" (Rumination 000): a
+\* macro body of one directional step may as well be written without any separator (`m:o := a omit_fwd`).
+\* Invoked as a step of a pipeline it means the same as the spelling with a separator: the macro step is
+\* (skipped forward, a's inverse in the inverse direction), and `inv m:o` is that with the two directions
+\* exchanged.  LoneSpelled (overridden by the instances that generate this spelling) names the macros whose
+\* body is written that way.  Only where there is no pipeline at all - the invocation, or a chain of
+\* single-step bodies leading to it, is the whole top-level definition - nothing says what the omission of
+\* a lone operator means (the code applies it in both directions): such definitions are Undecided and the
+\* instances do not generate them.
+LoneSpelled == {}
+LoneC == TLCEval(LoneSpelled)
+ASSUME \A n \in LoneC : n \in DOMAIN ResC /\ OneStepPipeline(ResC[n])
+RECURSIVE ReachesLone(_, _)
+ReachesLone(s, fuel) ==
+    /\ fuel > 0 /\ IsMacro(s.name)
+    /\ \/ s.name \in LoneC
+       \/ LET b == ResC[s.name] IN Len(b) = 1 /\ ~(b[1].of \/ b[1].oi) /\ ReachesLone(b[1], fuel - 1)
+Undecided(def) == Len(def) = 1 /\ ~(def[1].of \/ def[1].oi) /\ ReachesLone(def[1], 8)
+
+ResourceTexts == TLCEval([n \in DOMAIN ResC |-> IF n \in LoneC THEN DefTextFrom(ResC[n], 1, "suffix")
+                                                  ELSE DefText(ResC[n], "suffix")])
 
 (***************************************************************************)
 (* The small-step machine                                                  *)
